@@ -179,6 +179,33 @@ def parse_level_oracle(ctx):
                         ctx.violation("parse-level:%s|%s|%r%s" % (name, keep, inp, "|debug" if dbg else ""),
                                       "%s keep_tabs=%s%s on %r: %s" % (name, keep, " with debug actions set" if dbg else "", inp, bad),
                                       {"kind": "parse-level", "name": name, "keep": keep, "input": inp})
+    # original_text_for must return the slice between the first and the last matched character also when ignorables are
+    # configured on the wrapped expression AFTER it was wrapped (its start marker shares the expression's ignore list)
+    nlate = 0
+    for name, mk in exprs:
+        for inp in ["/* c */ ab 12", "ab /* d */ 12", " /*c*/ab\t12 /*e*/", "/*c*/ (a b)", "/* c */\n a,b", "ab"]:
+            def variant(late):
+                inner = mk()
+                if not late:
+                    inner.ignore(pp.c_style_comment)
+                otf = pp.original_text_for(inner)
+                if late:
+                    inner.ignore(pp.c_style_comment)
+                try:
+                    return ("ok", otf.parse_string(inp)[0])
+                except pp.ParseBaseException as e:
+                    return ("err", e.loc)
+            early, late = variant(False), variant(True)
+            nlate += 1
+            ctx.case("otf-late-ignore|%s|%r" % (name, inp), nontrivial=True, agreed=True)
+            if early != late:
+                ctx.violation("otf-late-ignore:%s|%r" % (name, inp),
+                              "original_text_for(%s) on %r: %r when ignore(comment) is set before wrapping, %r when it is set on the wrapped expression afterwards" % (
+                                  name, inp, early, late), {"kind": "otf-late", "name": name, "input": inp})
+            elif early[0] == "ok" and (early[1].startswith("/*") or early[1] != early[1].lstrip()):
+                ctx.violation("otf-includes-ignorable:%s|%r" % (name, inp), "original_text_for(%s) on %r returns %r (starts with skipped text)" % (name, inp, early[1]),
+                              {"kind": "otf-late", "name": name, "input": inp})
+    ctx.stat("otf_late_ignore_cases", nlate)
     ctx.stat("parse_level_cases", len(exprs) * 4 * len(inputs))
 
 
@@ -211,5 +238,13 @@ def replay(ctx, obj):
         if bad:
             print("s=%r loc=%d: %s" % (r["s"], r["loc"], bad))
         return bad is None
+    if r.get("kind") == "otf-late":
+        c2 = vlib.Ctx(PROP, "quick", 0)
+        c2.known = {}
+        parse_level_oracle(c2)
+        bad = [v for v in c2.violations if v["key"].startswith("otf-")]
+        for v in bad:
+            print(v["what"])
+        return not bad
     print("replay names a broken proof/correspondence obligation: %r" % (r,))
     return False
